@@ -49,11 +49,29 @@ PROPS["C06"] = {
                     "cycle *reporting* text is dropped (R4); that a cycle yields Err is by the stack check, that no step of a cycle becomes Ready follows from inv1 but is not stated as a separate clause"],
 }
 
+DB_ASSUME = [
+    "io model (trusted): Write::write_all appends all bytes or, on error/crash, a prefix; Read::read_exact fails only with UnexpectedEof and exactly when fewer bytes remain (no other I/O errors while loading); BufReader::stream_position reports the bytes consumed",
+    "str::len/as_bytes/from_utf8_unchecked are related through one uninterpreted utf-8 function; to_le_bytes/from_le_bytes are the little-endian codecs (R9 wrappers)",
+    "GraphFiles::id_from_canonical (hash map) is a trusted stub; HashMap<FileId,Id> obeys the vstd key model",
+    "D8 (known limits, preconditions of Writer::write_build that callers cannot discharge): #outputs < 32768, #discovered deps <= 65535, names < 32768 bytes, < 2^24 distinct files ever logged",
+]
+PROPS["C08"] = {
+    "units": ["db"],
+    "probes": {"db": ["db::Reader::read_build", "db::Writer::write_build", "db::Writer::ensure_id"]},
+    "level": "proof",
+    "assumptions": DB_ASSUME + ["'hash is over names, mtimes and text only' is part of unit dirty (C02/C03)", "the whole-log round trip lemma (decode(encode(R)) == R) is stated per record: write_build's bytes are enc_build(ids_of(outs), ids_of(deps), hash) and read_build decodes exactly these fields"],
+}
+
 NOT_APPLICABLE = {
     "C16": "OS-level effects (posix_spawn file actions, pipes, /bin/sh, waitpid, cross-thread output order) sit behind unsafe FFI and threads; no contract on n2's own code can express them (DESIGN.md §8)",
 }
 
 LEVEL_TEXT = {
+    "C08": {
+        "text": "Unbounded proof (Verus) on the real text of db.rs: Writer::write_build appends, in one write per record, first a path record for every file not yet logged (ids in order) and then exactly enc_build(ids_of(outs), ids_of(discovered deps), hash), where each id maps back to that file (idmap_inv); Reader::read_build decodes exactly those fields and applies the record to build b iff the record names at least one output and every named output currently has b as its producer (target_of), in which case b's discovered inputs and hash are replaced (latest record wins) and nothing else changes; otherwise graph and hashes are unchanged. u16/u24/u64 codecs proved inverse by bit-vector lemmas.",
+        "note": "Trusted: io model, utf-8 model, le-bytes wrappers, id_from_canonical stub. Field-width limits are stated preconditions (D8). Genuine defect D13 found by this contract and fixed in /repo (record applied although one named output had no producer).",
+        "design_ref": "DESIGN.md §6 C08",
+    },
     "C01": {
         "text": "Unbounded proof (Verus) over the real text of BuildStates::{set,want_build,want_file,pop_ready,pop_queued,enqueue,get_pool} and Work::{recheck_ready,ready_dependents,run}: the loop invariant of Work::run (inv1: every build in state Ready/Queued/Running/Done/Failed has all producers of its explicit, implicit and order-only inputs Done; only legal state transitions; queues hold each id once) is preserved by every statement, and the trusted effect boundary Runner::start is called only with `id not started before` and, via the state vector, only for a build whose producers are all Done. Readiness is computed from ordering_ins only (validation and discovered inputs provably play no role). Holds for every graph, state vector, -j/-k, pool set and completion order (wait() returns an arbitrary live build with an arbitrary outcome).",
         "note": "Trusted: Runner (threads/channel) contracts, get_pool's two assumes, HashSet model, dirty-check stubs' frames, u32 ids. Not decided: that every dependent eventually starts (C06a).",
